@@ -176,13 +176,9 @@ def run(ctx: Ctx):
 
     ctx.rule("R19.c", "the Myokit importer renames clashing names consistently at both sites", floor=2)
     my = sm.module("myokit.py")
-    sites = []
-    for f in sm.funcs_in("myokit.py"):
-        for n in ast.walk(f.node):
-            if isinstance(n, ast.If) and norm(n.test) == "name in reserved_names":
-                sites.append((f, n))
-    ok = len(sites) >= 2 and all(any(isinstance(s, ast.Assign) and norm(s.targets[0]) == "name" and fstring_skeleton(s.value) == "{name}_" for s in n.body) for _, n in sites)
-    ctx.check(ok, "R19.c", "src/gotranx/myokit.py::reserved-rename", "both sites rename `name` to `name_`", f"the Myokit importer's reserved-name renaming is applied at {len(sites)} site(s) or differs between them", "src/gotranx/myokit.py")
+    from .c15 import rename_site_rule
+
+    rename_site_rule(ctx, "R19.c", "src/gotranx/myokit.py::reserved-rename")
     rn = [n for n in my.body if isinstance(n, ast.Assign) and norm(n.targets[0]) == "reserved_names"]
     ctx.check(bool(rn) and norm(rn[0].value).replace('"', "'") == "{name for name in dir(sp) if not name.startswith('_')}", "R19.c", "src/gotranx/myokit.py::reserved_names", "every public sympy name is reserved", f"myokit.reserved_names is {norm(rn[0].value) if rn else None}: names such as `pi` would no longer be renamed and are captured by the grammar's constant on reload", "src/gotranx/myokit.py")
 
